@@ -143,6 +143,7 @@ struct World {
     std::map<std::string, std::unique_ptr<Vertex4> > vertices;
     std::map<std::string, Operator> algebra;                              // C05 registers
     bool repeat;                                                          // call prepare()/compute() a second time on every object (idempotence)
+    std::vector<MatrixType> saved_blocks;                                 // hsave / hcheck
     bool have_tol2 = false; double tol2[3] = {1e-8, 1e-16, 1e-5};           // user-set precision knobs of two-particle objects (public members)
     World() : repeat(false) {}
 
@@ -526,6 +527,36 @@ static std::string exec_line(World*& W, long lineno, const std::string& line) {
         for (int b = 0; b < nb; b++) { if (b) o += ","; o += jmatrix(W->h().getPart(BlockNumber(b)).getMatrix()); }
         J.kvraw("m", o + "]"); return J.done();
     }
+    // large models: no matrices in the answer.  hsave keeps copies of the block matrices after prepare(); hcheck (after compute()) reports per
+    // block the dimension, max |H V - V E|, max |V^+ V - 1|, the eigenvalues' sum / sum of squares and the trace of the saved block
+    if (cmd == "hsave") {
+        int nb = W->s().NumberOfBlocks();
+        W->saved_blocks.clear();
+        for (int b = 0; b < nb; b++) W->saved_blocks.push_back(W->h().getPart(BlockNumber(b)).getMatrix());
+        J.kvi("blocks", nb); return J.done();
+    }
+    if (cmd == "hcheck") {
+        int nb = W->s().NumberOfBlocks();
+        if ((int)W->saved_blocks.size() != nb) throw std::runtime_error("runner: hsave first");
+        std::string o = "[";
+        for (int b = 0; b < nb; b++) {
+            const HamiltonianPart& P = W->h().getPart(BlockNumber(b));
+            const MatrixType& V = P.getMatrix(); const MatrixType& H0 = W->saved_blocks[b]; const RealVectorType& e = P.getEigenValues();
+            double resid = -1, orth = -1, tr = 0, se = 0, se2 = 0;
+            bool shape = V.rows() == H0.rows() && V.cols() == H0.cols() && e.size() == V.cols();
+            if (shape) {
+                MatrixType R = H0 * V - V * e.template cast<MelemType>().asDiagonal();
+                resid = R.size() ? R.cwiseAbs().maxCoeff() : 0.0;
+                MatrixType O = V.adjoint() * V - MatrixType::Identity(V.cols(), V.cols());
+                orth = O.size() ? O.cwiseAbs().maxCoeff() : 0.0;
+                tr = std::real(ComplexType(H0.trace())); se = e.sum(); se2 = e.squaredNorm();
+            }
+            if (b) o += ",";
+            o += "[" + jl(V.rows()) + "," + JOut::num(resid) + "," + JOut::num(orth) + "," + JOut::num(tr) + "," + JOut::num(se) + "," + JOut::num(se2) + "," + JOut::num(P.getMinimumEigenvalue()) + "]";
+        }
+        J.kvraw("blocks", o + "]"); J.kv("ground", W->h().getGroundEnergy());
+        return J.done();
+    }
     if (cmd == "eigen") {
         int nb = W->s().NumberOfBlocks();
         std::string ev = "[", vec = "[", mins = "[";
@@ -605,6 +636,8 @@ static std::string exec_line(World*& W, long lineno, const std::string& line) {
         J.kvc("v2", EA.getResult());
         std::unique_ptr<EnsembleAverage> EB_p(new EnsembleAverage(EA)); EnsembleAverage& EB = *EB_p;             // copy keeps the result
         J.kvc("vcopy", EB.getResult());
+        EB.prepare();                       // a copy of a prepared object is a prepared object: prepare() on it must be a no-op as well
+        J.kvc("vcopy2", EB.getResult());
         return J.done();
     }
 
@@ -667,6 +700,7 @@ static std::string exec_line(World*& W, long lineno, const std::string& line) {
         J.kvi("vanishing", G->isVanishing() ? 1 : 0);
         J.kvi("i0", G->getIndex(0)); J.kvi("i1", G->getIndex(1));
         std::unique_ptr<GreensFunction> Gcopy_p(new GreensFunction(*G)); GreensFunction& Gcopy = *Gcopy_p;            // the copy constructor must give an object with the same values
+        Gcopy.prepare(); Gcopy.compute();   // ... and the same state: prepare()/compute() on a copy of a computed object are no-ops
         std::string ocopy = "[";
         bool firstcopy = true;
         while (t.more()) {
@@ -711,13 +745,20 @@ static std::string exec_line(World*& W, long lineno, const std::string& line) {
                     (void)EA.getResult(); (void)EB.getResult();
                     X.subtractDisconnected(EA, EB);
                 }
+                else if (mode == 5) {       // copies of averages that were prepared before they were copied (e.g. elements of a std::vector)
+                    std::unique_ptr<EnsembleAverage> EA_p(new EnsembleAverage(W->s(), W->h(), W->quad_op(a, b), W->dm()));
+                    std::unique_ptr<EnsembleAverage> EB_p(new EnsembleAverage(W->s(), W->h(), W->quad_op(c, d), W->dm()));
+                    EA_p->prepare(); EB_p->prepare();
+                    std::vector<EnsembleAverage> v; v.push_back(*EA_p); v.push_back(*EB_p);
+                    X.subtractDisconnected(v[0], v[1]);
+                }
                 continue;
             }
             long k = t.l();
             std::string o = "[";
             for (long q = 0; q < k; q++) {
                 if (q) o += ",";
-                if (what == "n") { long n = t.l(); o += JOut::cnum(X(n)); std::unique_ptr<Susceptibility> Xc_p(new Susceptibility(X)); Susceptibility& Xc = *Xc_p; if (Xc(n) != X(n) && !(std::isnan(Xc(n).real()) && std::isnan(X(n).real()))) throw std::runtime_error("runner: copy of Susceptibility evaluates differently"); }
+                if (what == "n") { long n = t.l(); o += JOut::cnum(X(n)); std::unique_ptr<Susceptibility> Xc_p(new Susceptibility(X)); Susceptibility& Xc = *Xc_p; Xc.prepare(); Xc.compute(); if (Xc(n) != X(n) && !(std::isnan(Xc(n).real()) && std::isnan(X(n).real()))) throw std::runtime_error("runner: copy of Susceptibility evaluates differently"); }
                 else if (what == "z") { ComplexType z = t.c(); o += JOut::cnum(X(z)); }
                 else if (what == "tau") { double tau = t.d(); o += JOut::cnum(X.of_tau(tau)); }
                 else throw std::runtime_error("runner: susc bad selector");
@@ -892,6 +933,14 @@ static std::string exec_line(World*& W, long lineno, const std::string& line) {
         if (sub == "raw") {   // monomials inserted verbatim via sums of single products (still normal ordered by the library)
             std::string r = t.word(); W->algebra[r] = read_operator(t); J.kvraw("op", joperator(W->algebra[r])); return J.done(); }
         if (sub == "mul") { std::string r = t.word(), a = t.word(), b = t.word(); W->algebra[r] = W->algebra[a] * W->algebra[b]; J.kvraw("op", joperator(W->algebra[r])); return J.done(); }
+        // compound assignments; r and a may name the same object (P *= P, P += P, P -= P)
+        if (sub == "imul" || sub == "iadd" || sub == "isub") {
+            std::string r = t.word(), a = t.word();
+            if (!W->algebra.count(r) || !W->algebra.count(a)) throw std::runtime_error("runner: unknown register");
+            Operator& R = W->algebra[r]; const Operator& A = W->algebra[a];
+            if (sub == "imul") R *= A; else if (sub == "iadd") R += A; else R -= A;
+            J.kvraw("op", joperator(R)); return J.done();
+        }
         if (sub == "add") { std::string r = t.word(), a = t.word(), b = t.word(); W->algebra[r] = W->algebra[a] + W->algebra[b]; J.kvraw("op", joperator(W->algebra[r])); return J.done(); }
         if (sub == "sub") { std::string r = t.word(), a = t.word(), b = t.word(); W->algebra[r] = W->algebra[a] - W->algebra[b]; J.kvraw("op", joperator(W->algebra[r])); return J.done(); }
         if (sub == "neg") { std::string r = t.word(), a = t.word(); W->algebra[r] = -W->algebra[a]; J.kvraw("op", joperator(W->algebra[r])); return J.done(); }
